@@ -368,6 +368,94 @@ def h_walk_chain():
     return Harness("walk-chain", run, spec=Spec())
 
 
+class Entity_(Opaque):
+    """a mapped DAO class or an alias of one (assumed contract of sqlalchemy.orm.aliased: a NEW FROM element for the same mapped
+    class; an attribute of the alias is a column / relationship attribute of THAT FROM element)"""
+    counter = [0]
+
+    def __init__(self, name, alias_of=None):
+        super().__init__("entity:" + name)
+        self.name, self.alias_of = name, alias_of
+
+    def m_getattr(self, vm, name):
+        if name == "__name__":
+            return self.name
+        return Sql((self.name + "." + name,))
+
+    def m_truth(self, vm):
+        return True
+
+    def m_hash(self, vm):
+        return id(self)
+
+    def __repr__(self):
+        return f"<{self.name}>"
+
+
+def h_relationship_chain():
+    """x.r1.r2.c : every relationship on the way is joined ONCE through an alias of its own, the ON clause of each hop is the
+    relationship attribute of the FROM element the hop starts from (the selected class for the first hop, the PREVIOUS alias for
+    every later hop), and the final column is a column of the last alias.  Anchoring a later hop at the un-aliased declaring class
+    compares against the selected row itself.  Assumed: sqlalchemy.inspection.inspect(entity) gives the mapper of the entity's
+    class; relationship.entity.class_ is the target class; relationship.class_attribute is the attribute of the un-aliased
+    declaring class."""
+    def run(vm):
+        ctx = vm.ctx
+        install_sql(vm)
+        t = translator(vm)
+        t.fields["sql_query"] = Statement(("select", "ConnDAO"))
+        Conn, Body, World = Entity_("ConnDAO"), Entity_("BodyDAO"), Entity_("WorldDAO")
+        made = []
+
+        def aliased(it, fr, a, k):
+            Entity_.counter[0] += 1
+            al = Entity_(f"alias{len(made) + 1}({a[0].name})", alias_of=a[0])
+            made.append(al)
+            return al
+        vm.loader.externals[("sqlalchemy.orm", "aliased")] = Builtin("aliased", aliased)
+        insp = vm.alloc(vm.ext("object"), {"inspect": Builtin("inspect", lambda it, fr, a, k: ("mapper-of", a[0].alias_of or a[0]))}, tag="sqlalchemy.inspection")
+        vm.loader.externals[("sqlalchemy", "inspection")] = insp
+        rels = {(Conn, "parent"): Body, (Body, "world"): World}
+
+        def find_relationship(it, a, k):
+            mapper, name = a[1], a[2]
+            target = rels.get((mapper[1], name))
+            if target is None:
+                return None
+            ent = it.alloc(it.ext("object"), {"class_": target}, tag="relationship-entity")
+            return it.alloc(it.ext("object"), {"entity": ent, "key": name, "class_attribute": Sql((mapper[1].name + "." + name + "@declaring-class",)),
+                                               "local_columns": PyList([])}, tag=f"relationship-{name}")
+        vm.spec.stubs["RelationshipResolver._find_relationship"] = find_relationship
+        vm.spec.opaque_hooks["hasattr"] = lambda it, o, name: True
+        vm.spec.opaque_hooks["hash"] = lambda it, o: id(o)
+        col = vm.call_method(t, "_walk_attribute_chain", Conn, PyList(["parent", "world", "id"]))
+        joins = [x for x in t.fields["sql_query"].term if isinstance(x, tuple) and x and x[0] == "join"]
+        ok = (len(made) == 2 and len(joins) == 2
+              # (first hop: the selected class is not aliased, its own attribute and the declaring class's attribute are the same element)
+              and joins[0][1] is made[0] and term_of(joins[0][2]) in (("ConnDAO.parent",), ("ConnDAO.parent@declaring-class",))
+              and joins[1][1] is made[1] and term_of(joins[1][2]) == (made[0].name + ".world",)
+              and made[0].alias_of is Body and made[1].alias_of is World)
+        ctx.check("EQLTranslator._walk_attribute_chain::every-hop-is-joined-through-its-own-alias-on-the-attribute-of-the-element-it-starts-from",
+                  z3.BoolVal(bool(ok)), detail=f"aliases {made}; joins {[(j[1], term_of(j[2])) for j in joins if len(j) > 2]}")
+        ctx.check("EQLTranslator._walk_attribute_chain::the-column-is-a-column-of-the-last-alias",
+                  z3.BoolVal(isinstance(col, Sql) and len(made) == 2 and col.term == (made[1].name + ".id",)), detail=repr(col))
+        # the same path again (another condition of the same query): no second join, the same alias
+        n_before = len(joins)
+        col2 = vm.call_method(t, "_walk_attribute_chain", Conn, PyList(["parent", "world", "name"]))
+        joins2 = [x for x in t.fields["sql_query"].term if isinstance(x, tuple) and x and x[0] == "join"]
+        ctx.check("EQLTranslator._walk_attribute_chain::a-path-joined-before-is-reused-not-joined-again",
+                  z3.BoolVal(len(joins2) == n_before and len(made) == 2 and isinstance(col2, Sql) and col2.term == (made[1].name + ".name",)), detail=f"{joins2}, {col2!r}")
+        # ... and a fresh translation starts without joins (whatever earlier translations did)
+        t2 = translator(vm)
+        t2.fields["sql_query"] = Statement(("select", "ConnDAO"))
+        col3 = vm.call_method(t2, "_walk_attribute_chain", Conn, PyList(["parent", "name"]))
+        joins3 = [x for x in t2.fields["sql_query"].term if isinstance(x, tuple) and x and x[0] == "join"]
+        ctx.check("EQLTranslator._walk_attribute_chain::a-new-translation-joins-the-paths-it-uses-itself",
+                  z3.BoolVal(len(joins3) == 1 and len(made) == 3 and joins3[0][1] is made[2] and isinstance(col3, Sql) and col3.term == (made[2].name + ".name",)),
+                  detail=f"{joins3}, {col3!r}")
+    return Harness("relationship-chain", run, spec=Spec())
+
+
 def h_membership():
     """contains / in_ : a literal collection and an attribute become `column IN (values)` (negated for not_contains); a literal on
     the other side likewise; the decision is taken on the EQL node kinds, the operands are translated once each."""
@@ -467,4 +555,4 @@ def h_canary():
 
 
 def harnesses():
-    return [h_dispatch(), h_logical(), h_operators(), h_attribute_guard(), h_evaluate_and_translate(), h_walk_chain(), h_membership(), h_string_containment(), h_error_hierarchy(), h_canary()]
+    return [h_dispatch(), h_logical(), h_operators(), h_attribute_guard(), h_evaluate_and_translate(), h_walk_chain(), h_relationship_chain(), h_membership(), h_string_containment(), h_error_hierarchy(), h_canary()]
